@@ -2,6 +2,7 @@ package eio
 
 import (
 	"net/http"
+	"net/url"
 
 	"github.com/karagenc/socket.io-go/engine.io/parser"
 	"github.com/karagenc/socket.io-go/engine.io/transport"
@@ -56,3 +57,35 @@ func (t *verifRecServerTransport) Discard()                 { t.discards++ }
 func (t *verifRecServerTransport) Close()                   { t.closed++ }
 
 func verifCallbacks() *transport.Callbacks { return transport.NewCallbacks() }
+
+// verifRW is a recording http.ResponseWriter.
+type verifRW struct {
+	status int
+	body   []byte
+	hdr    http.Header
+}
+
+func (w *verifRW) Header() http.Header {
+	if w.hdr == nil {
+		w.hdr = http.Header{}
+	}
+	return w.hdr
+}
+func (w *verifRW) Write(b []byte) (int, error) {
+	if w.status == 0 {
+		w.status = 200
+	}
+	w.body = append(w.body, b...)
+	return len(b), nil
+}
+func (w *verifRW) WriteHeader(code int) {
+	if w.status == 0 {
+		w.status = code
+	}
+}
+
+
+func verifReq(method, query string) *http.Request {
+	return &http.Request{Method: method, URL: &url.URL{Path: "/engine.io/", RawQuery: query}, ProtoMajor: 1, ProtoMinor: 1, Header: http.Header{}}
+}
+
